@@ -196,6 +196,133 @@ def translate_categoriser(cls: ast.ClassDef, fn_name: str, lean_name: str, arg: 
     return f"def {lean_name} (low med high n : Int) : Nat :=\n" + _stmts(fn.body, env, 1)
 
 
+# ---------------------------------------------------------------- `_validate_thresholds` and the threshold setters
+
+def _vt_expr(e: ast.AST) -> str:
+    """integer expressions of `_validate_thresholds` over `thresholds` (a list of ints in the model) and `idx`"""
+    if isinstance(e, ast.Constant) and isinstance(e.value, int) and not isinstance(e.value, bool):
+        return f"({e.value} : Int)"
+    if isinstance(e, ast.Name) and e.id == "idx":
+        return "idx"
+    if isinstance(e, ast.Call) and ast.unparse(e) == "len(thresholds)":
+        return "(thresholds.length : Int)"
+    if isinstance(e, ast.Subscript) and ast.unparse(e.value) == "thresholds":
+        return f"(pyGetI thresholds {_vt_expr(e.slice)})"
+    if isinstance(e, ast.BinOp) and isinstance(e.op, (ast.Add, ast.Sub)):
+        return f"({_vt_expr(e.left)} {'+' if isinstance(e.op, ast.Add) else '-'} {_vt_expr(e.right)})"
+    raise ValueError("_validate_thresholds: expression not followed: " + ast.unparse(e))
+
+
+def _vt_test(e: ast.AST) -> str:
+    """a Lean Bool for a test of `_validate_thresholds`; the model's thresholds are integers, so `isinstance(thresholds[i], int)` holds
+    and `thresholds is None` does not"""
+    cmp = {ast.Gt: ">", ast.GtE: "≥", ast.Lt: "<", ast.LtE: "≤", ast.Eq: "=", ast.NotEq: "≠"}
+    if isinstance(e, ast.BoolOp):
+        return "(" + (" || " if isinstance(e.op, ast.Or) else " && ").join(_vt_test(v) for v in e.values) + ")"
+    if isinstance(e, ast.UnaryOp) and isinstance(e.op, ast.Not):
+        return f"(!{_vt_test(e.operand)})"
+    if isinstance(e, ast.Compare) and len(e.ops) == 1:
+        if isinstance(e.ops[0], ast.Is) and ast.unparse(e) == "thresholds is None":
+            return "false"
+        if type(e.ops[0]) in cmp:
+            return f"(decide ({_vt_expr(e.left)} {cmp[type(e.ops[0])]} {_vt_expr(e.comparators[0])}))"
+    if isinstance(e, ast.Call) and isinstance(e.func, ast.Name) and e.func.id == "isinstance" and len(e.args) == 2 \
+            and ast.unparse(e.args[1]) == "int" and isinstance(e.args[0], ast.Subscript) and ast.unparse(e.args[0].value) == "thresholds":
+        _vt_expr(e.args[0].slice)
+        return "true"
+    raise ValueError("_validate_thresholds: test not followed: " + ast.unparse(e))
+
+
+def _is_raise_if(st: ast.stmt) -> bool:
+    return isinstance(st, ast.If) and not st.orelse and len(st.body) == 1 and isinstance(st.body[0], ast.Raise)
+
+
+def translate_validate_thresholds(fn: ast.FunctionDef) -> str:
+    """`def validateThresholds (thresholds : List Int) : Bool` — true = the method returns True, false = it raises.  Accepted shape:
+    any number of `if <test>: raise …` guards, `for idx in range(a, len(thresholds))` loops whose body is a sequence of such guards
+    (a raise in any iteration ends the call, the iterations share no state: `List.all`), then `return True`."""
+    body = [s for s in fn.body if not (isinstance(s, ast.Expr) and isinstance(s.value, ast.Constant) and isinstance(s.value.value, str))]
+    if not body or not (isinstance(body[-1], ast.Return) and isinstance(body[-1].value, ast.Constant) and body[-1].value.value is True):
+        raise ValueError("_validate_thresholds: does not end with `return True`")
+    parts = []
+    for st in body[:-1]:
+        if _is_raise_if(st):
+            parts.append(f"!{_vt_test(st.test)}")
+        elif isinstance(st, ast.For) and not st.orelse and isinstance(st.target, ast.Name) and st.target.id == "idx" \
+                and isinstance(st.iter, ast.Call) and ast.unparse(st.iter.func) == "range" and len(st.iter.args) == 2 \
+                and isinstance(st.iter.args[0], ast.Constant) and isinstance(st.iter.args[0].value, int) \
+                and ast.unparse(st.iter.args[1]) == "len(thresholds)" and all(_is_raise_if(x) for x in st.body):
+            a = st.iter.args[0].value
+            inner = " && ".join(f"!{_vt_test(x.test)}" for x in st.body) or "true"
+            parts.append(f"(List.range' {a} (thresholds.length - {a})).all (fun idxN => let idx : Int := (idxN : Nat)\n      {inner})")
+        else:
+            raise ValueError("_validate_thresholds: statement not followed: " + ast.unparse(st)[:80])
+    return ("/-- Python list indexing on a list of ints (a negative index counts from the end; out of range is IndexError, unreachable behind\n"
+            "the guards: 0) -/\n"
+            "def pyGetI (l : List Int) (i : Int) : Int := if i < 0 then l.getD (l.length - i.natAbs) 0 else l.getD i.toNat 0\n"
+            "/-- `AbstractObservation._validate_thresholds(thresholds)`, translated: true = returns True, false = raises -/\n"
+            "def validateThresholds (thresholds : List Int) : Bool :=\n  " + " &&\n  ".join(parts or ["true"]))
+
+
+def threshold_setter(cls: ast.ClassDef, key: str, prefix: str) -> str:
+    """the constructor's `if thresholds.get(KEY) is None: <class defaults> else: self._set…(thresholds=[…['low'], …['medium'], …['high']])`
+    and the setter's `if self._validate_thresholds(thresholds=…): self.low… = thresholds[0] …` as one table row"""
+    init = find_method(cls, "__init__")
+    branch = [n for n in init.body if isinstance(n, ast.If) and ast.unparse(n.test) == f"thresholds.get('{key}') is None"]
+    if len(branch) != 1:
+        raise ValueError(f"{cls.name}.__init__: no single `if thresholds.get('{key}') is None`")
+    br = branch[0]
+    absent = "class-defaults" if all(isinstance(s, ast.Assign) and isinstance(s.value, ast.Constant) for s in br.body) and len(br.body) == 3 else "other"
+    if len(br.orelse) != 1 or not (isinstance(br.orelse[0], ast.Expr) and isinstance(br.orelse[0].value, ast.Call)):
+        raise ValueError(f"{cls.name}.__init__: the branch with thresholds is not one setter call")
+    call = br.orelse[0].value
+    setter = ast.unparse(call.func)
+    if not setter.startswith("self.") or call.args or [k.arg for k in call.keywords] != ["thresholds"] or not isinstance(call.keywords[0].value, ast.List):
+        raise ValueError(f"{cls.name}.__init__: setter call not recognised: {ast.unparse(call)}")
+    handed = []
+    for e in call.keywords[0].value.elts:
+        u = ast.unparse(e)
+        pre = f"thresholds.get('{key}')['"
+        if not (u.startswith(pre) and u.endswith("']")):
+            raise ValueError(f"{cls.name}.__init__: threshold entry not recognised: {u}")
+        handed.append(u[len(pre):-2])
+    fn = find_method(cls, setter[len("self."):])
+    body = [s for s in fn.body if not (isinstance(s, ast.Expr) and isinstance(s.value, ast.Constant))]
+    if len(body) != 1 or not isinstance(body[0], ast.If) or body[0].orelse:
+        raise ValueError(f"{cls.name}.{fn.name}: body is not one `if self._validate_thresholds(…):`")
+    test = body[0].test
+    if not (isinstance(test, ast.Call) and ast.unparse(test.func) == "self._validate_thresholds" and not test.args):
+        raise ValueError(f"{cls.name}.{fn.name}: test is not a call of _validate_thresholds: {ast.unparse(test)}")
+    kw = {k.arg: k.value for k in test.keywords}
+    if set(kw) - {"thresholds", "threshold_identifier"} or "thresholds" not in kw:
+        raise ValueError(f"{cls.name}.{fn.name}: keywords of _validate_thresholds not recognised")
+    arg = kw["thresholds"]
+    if isinstance(arg, ast.Name) and arg.id == "thresholds":
+        validated = [0, 1, 2]  # the whole list the constructor handed over (three entries, checked here)
+        if len(handed) != 3:
+            raise ValueError("whole-list validation of a list that has not three entries")
+    elif isinstance(arg, ast.List):
+        validated = []
+        for e in arg.elts:
+            if not (isinstance(e, ast.Subscript) and ast.unparse(e.value) == "thresholds" and isinstance(e.slice, ast.Constant)):
+                raise ValueError(f"{cls.name}.{fn.name}: validated entry not recognised: {ast.unparse(e)}")
+            validated.append(int(e.slice.value))
+    else:
+        raise ValueError(f"{cls.name}.{fn.name}: validated list not recognised: {ast.unparse(arg)}")
+    assigns = []
+    for st in body[0].body:
+        if not (isinstance(st, ast.Assign) and len(st.targets) == 1 and isinstance(st.value, ast.Subscript)
+                and ast.unparse(st.value.value) == "thresholds" and isinstance(st.value.slice, ast.Constant)):
+            raise ValueError(f"{cls.name}.{fn.name}: statement under the validation not recognised: {ast.unparse(st)}")
+        t = ast.unparse(st.targets[0])
+        suf = f"_{prefix}_threshold"
+        if not (t.startswith("self.") and t.endswith(suf)):
+            raise ValueError(f"{cls.name}.{fn.name}: assigns {t}")
+        assigns.append((t[len("self."):-len(suf)], int(st.value.slice.value)))
+    return (f'("{cls.name}", "{key}", "{absent}", [' + ", ".join(f'"{h}"' for h in handed) + "], [" + ", ".join(map(str, validated)) + "], ["
+            + ", ".join(f'("{a}", {i})' for a, i in assigns) + "])")
+
+
 # ------------------------------------------------------------------------------------------------- specific shapes
 def find_min_clamp(fn: ast.FunctionDef, must_contain: str) -> Optional[int]:
     """`min(<expr containing must_contain>, K)` or `min(K, <expr…>)` anywhere in fn → K"""
@@ -268,6 +395,15 @@ def _leaf_assign(body: List[ast.stmt]) -> str:
             a = _leaf_assign(inner.body)
             b = _leaf_assign(inner.orelse)
             return f"cached:{a}|scanned:{b}"
+    # since repair 59ceb16: `same_folder = <the cache was read from this folder object>` and the cache is used only for that object
+    if len(body) == 2 and isinstance(body[0], ast.Assign) and ast.unparse(body[0].targets[0]) == "same_folder" and isinstance(body[1], ast.If):
+        inner = body[1]
+        if ast.unparse(body[0].value) != "self._cached_uuid is None or folder_state.get('uuid') == self._cached_uuid":
+            raise ValueError("unrecognised same_folder expression: " + ast.unparse(body[0].value))
+        if ast.unparse(inner.test) in ("not folder_state['scanned_this_step'] and same_folder", "same_folder and (not folder_state['scanned_this_step'])"):
+            a = _leaf_assign(inner.body)
+            b = _leaf_assign(inner.orelse)
+            return f"cached-of-this-folder:{a}|scanned-or-other-folder:{b}"
     raise ValueError("unrecognised scan-gate branch")
 
 
@@ -276,6 +412,122 @@ def folder_cache_updated(cls: ast.ClassDef) -> bool:
         if isinstance(node, ast.Assign) and ast.unparse(node.targets[0]) == "self.cached_obs":
             return ast.unparse(node.value) == "obs"
     return False
+
+
+def folder_cache_identity(cls: ast.ClassDef) -> Tuple[str, str, str]:
+    """(what `__init__` assigns to `_cached_uuid`, what `observe` assigns to it — after `self.cached_obs = obs`, on the present path —,
+    the statements of the branch for a folder that is not in the state)"""
+    init = [ast.unparse(n.value) for n in ast.walk(find_method(cls, "__init__"))
+            if isinstance(n, (ast.Assign, ast.AnnAssign)) and ast.unparse(n.targets[0] if isinstance(n, ast.Assign) else n.target) == "self._cached_uuid"]
+    obs = find_method(cls, "observe")
+    top = [st for st in obs.body if not (isinstance(st, ast.Expr) and isinstance(st.value, ast.Constant))]
+    upd = "<none>"
+    for i, st in enumerate(top):
+        if isinstance(st, ast.Assign) and ast.unparse(st.targets[0]) == "self._cached_uuid":
+            prev = top[i - 1]
+            if not (isinstance(prev, ast.Assign) and ast.unparse(prev.targets[0]) == "self.cached_obs"):
+                raise ValueError("FolderObservation.observe: _cached_uuid is not updated right after cached_obs")
+            upd = ast.unparse(st.value)
+    absent = next((st for st in top if isinstance(st, ast.If) and ast.unparse(st.test) == "folder_state is NOT_PRESENT_IN_STATE"), None)
+    if absent is None or absent.orelse:
+        raise ValueError("FolderObservation.observe: branch for an absent folder not recognised")
+    return (init[0] if len(init) == 1 else "<none>"), upd, "; ".join(ast.unparse(x) for x in absent.body)
+
+
+def space_built_incrementally(cls: ast.ClassDef) -> bool:
+    """does the `space` property add keys to an EXISTING gymnasium `Dict` (`x = spaces.Dict(…)` … `x[k] = …` / `x[k][j] = …`)?  Such keys
+    are appended in insertion order; a complete Python dict handed to `spaces.Dict(…)` is sorted by gymnasium."""
+    fn = _prop(cls, "space")
+    gym_names = {n.targets[0].id for n in ast.walk(fn) if isinstance(n, ast.Assign) and len(n.targets) == 1 and isinstance(n.targets[0], ast.Name)
+                 and isinstance(n.value, ast.Call) and ast.unparse(n.value.func).endswith("spaces.Dict")}
+    for n in ast.walk(fn):
+        if isinstance(n, (ast.Assign, ast.AugAssign)):
+            for t in (n.targets if isinstance(n, ast.Assign) else [n.target]):
+                root = t
+                while isinstance(root, ast.Subscript):
+                    root = root.value
+                if isinstance(t, ast.Subscript) and isinstance(root, ast.Name) and root.id in gym_names:
+                    return True
+        if isinstance(n, ast.Call) and isinstance(n.func, ast.Attribute) and n.func.attr in ("update", "setdefault") \
+                and isinstance(n.func.value, ast.Name) and n.func.value.id in gym_names:
+            return True
+    return False
+
+
+def nmne_table(fn: ast.FunctionDef) -> List[Tuple[bool, bool, bool, bool, bool]]:
+    """What `NICObservation.observe` does about NMNE, by CASES instead of by source text: for each value of (`self.include_nmne`,
+    `'nmne' in nic_state`) the statements of the live branch are walked, every `if` whose test is a boolean combination of these two
+    facts (directly or through a local assigned from one of them) is decided, and it is recorded whether the interface's counters are
+    read (`nic_state['nmne']`), whether a FRESH `NMNE` dictionary is put into the observation before that, and whether explicit zeros
+    are reported.  An `if` on anything else must not contain NMNE statements (raises).  Rows: (include, capturing, reads, fresh, zeros)."""
+    def is_zero_dict(d: ast.AST) -> bool:
+        return isinstance(d, ast.Dict) and sorted(ast.unparse(k) for k in d.keys) == ["'inbound'", "'outbound'"] and \
+            all(isinstance(v, ast.Constant) and v.value == 0 for v in d.values)
+
+    def nmne_write(st: ast.stmt):
+        """'fresh' / 'zeros' / None for `obs.update({'NMNE': …})` and `obs['NMNE'] = …`"""
+        val = None
+        if isinstance(st, ast.Expr) and isinstance(st.value, ast.Call) and ast.unparse(st.value.func) == "obs.update" and len(st.value.args) == 1 \
+                and isinstance(st.value.args[0], ast.Dict) and [ast.unparse(k) for k in st.value.args[0].keys] == ["'NMNE'"]:
+            val = st.value.args[0].values[0]
+        elif isinstance(st, ast.Assign) and len(st.targets) == 1 and ast.unparse(st.targets[0]) == "obs['NMNE']":
+            val = st.value
+        if val is None:
+            return None
+        if isinstance(val, ast.Dict) and not val.keys:
+            return "fresh"
+        if is_zero_dict(val):
+            return "zeros"
+        raise ValueError("NICObservation.observe: NMNE written with something else: " + ast.unparse(st))
+
+    def ev(e: ast.AST, env: dict):
+        u = ast.unparse(e)
+        if u in env:
+            return env[u]
+        if isinstance(e, ast.BoolOp):
+            vals = [ev(v, env) for v in e.values]
+            if any(v is None for v in vals):
+                return None
+            return all(vals) if isinstance(e.op, ast.And) else any(vals)
+        if isinstance(e, ast.UnaryOp) and isinstance(e.op, ast.Not):
+            v = ev(e.operand, env)
+            return None if v is None else (not v)
+        return None
+
+    def walk(stmts, env: dict, acc: dict):
+        for st in stmts:
+            if isinstance(st, ast.Assign) and len(st.targets) == 1 and isinstance(st.targets[0], ast.Name):
+                v = ev(st.value, env)
+                if v is not None:
+                    env[st.targets[0].id] = v
+                    continue
+            if isinstance(st, ast.If):
+                v = ev(st.test, env)
+                if v is None:
+                    if "NMNE" in ast.unparse(st) or "nic_state['nmne']" in ast.unparse(st):
+                        raise ValueError("NICObservation.observe: NMNE statements under a test that is not about include_nmne / capturing: " + ast.unparse(st.test))
+                    continue
+                walk(st.body if v else st.orelse, env, acc)
+                continue
+            w = nmne_write(st)
+            if w == "fresh":
+                acc["fresh"] = True
+            elif w == "zeros":
+                acc["zeros"] = True
+            elif "nic_state['nmne']" in ast.unparse(st):
+                acc["reads"] = True
+                acc["fresh_before_read"] = acc["fresh"]
+            elif "obs['NMNE']" in ast.unparse(st) and not acc["fresh"]:
+                acc["writes_unfresh"] = True  # writes into an NMNE dictionary this call did not create
+
+    rows = []
+    live = [st for st in fn.body if not (isinstance(st, ast.If) and "NOT_PRESENT_IN_STATE" in ast.unparse(st.test))]
+    for inc in (True, False):
+        for cap in (True, False):
+            acc = {"reads": False, "fresh": False, "zeros": False, "fresh_before_read": False, "writes_unfresh": False}
+            walk(live, {"self.include_nmne": inc, "'nmne' in nic_state": cap}, acc)
+            rows.append((inc, cap, acc["reads"], (acc["fresh_before_read"] or not acc["reads"]) and not acc["writes_unfresh"], acc["zeros"]))
+    return rows
 
 
 def nmne_gate(fn: ast.FunctionDef) -> Tuple[bool, bool, str, bool]:
@@ -381,10 +633,18 @@ def emit() -> str:
     t, e = scan_gate(find_method(cls["FolderObservation"], "observe"), "file_system_requires_scan")
     out.append(f'def folderScanGate : String × String := ("{t}", "{e}")')
     out.append(f"def folderCacheUpdated : Bool := {'true' if folder_cache_updated(cls['FolderObservation']) else 'false'}")
+    ci = folder_cache_identity(cls["FolderObservation"])
+    out.append("/-- (`_cached_uuid` at construction, its update on every present observation, the whole branch for an absent folder) -/")
+    out.append("def folderCacheIdentity : String × String × String := (" + ", ".join('"' + x.replace('"', "'") + '"' for x in ci) + ")")
     cap, dflt, src, reads = nmne_gate(find_method(cls["NICObservation"], "observe"))
     out.append(f"def nmneCaptureBranch : Bool := {'true' if cap else 'false'}")
     out.append(f"def nmneDefaultWhenNotCapturing : Bool := {'true' if dflt else 'false'}")
     out.append('def nmneCaptureSource : String := "' + src.replace('"', "'") + '"')
+    B_ = lambda b: "true" if b else "false"  # noqa: E731
+    out.append("/-- NICObservation.observe by cases: (include_nmne, interface publishes `nmne`, counters read, NMNE dictionary created by this\n"
+               "call before anything is written into it, explicit zeros reported) -/")
+    out.append("def nmneTable : List (Bool × Bool × Bool × Bool × Bool) := ["
+               + ", ".join("(" + ", ".join(B_(x) for x in r) + ")" for r in nmne_table(find_method(cls["NICObservation"], "observe"))) + "]")
     out.append(f"def nmneObserveReadsClassAttribute : Bool := {'true' if reads else 'false'}")
     # how ACLObservation.observe reads slot i of the ACL's state (`.get(i)`: a position beyond the slots is None = empty; `[i]` would raise)
     reads_ = [ast.unparse(n.value) for n in ast.walk(find_method(cls["ACLObservation"], "observe"))
@@ -403,10 +663,20 @@ def emit() -> str:
         if any(v is None for v in vals):
             raise ValueError(f"default thresholds of {name} not literal")
         out.append(f"def {name}_defaultThresholds : Int × Int × Int := ({vals[0]}, {vals[1]}, {vals[2]})")
-    # `_validate_thresholds`: the comparison that rejects
+    out.append("/-- the classes whose `space` adds keys to an existing gymnasium Dict (insertion order) instead of handing over a complete dict (sorted) -/")
+    out.append("def spaceBuiltIncrementally : List String := [" + ", ".join(f'"{n}"' for n in CLASSES if space_built_incrementally(cls[n])) + "]")
+    # `_validate_thresholds`: translated statement by statement; the setters and the constructors' calls as tables
     vt = find_method(class_def(parse(D + "observations.py"), "AbstractObservation"), "_validate_thresholds")
-    rejects = [ast.unparse(n.test) for n in ast.walk(vt) if isinstance(n, ast.If) and "thresholds[idx] <=" in ast.unparse(n.test)]
-    out.append(f"def thresholdsMustStrictlyAscend : Bool := {'true' if rejects == ['thresholds[idx] <= thresholds[idx - 1]'] else 'false'}")
+    out.append(translate_validate_thresholds(vt))
+    out.append("def thresholdsMustStrictlyAscend : Bool :=\n  validateThresholds [0, 1, 2] && !validateThresholds [0, 0, 1] && "
+               "!validateThresholds [1, 0, 2] && !validateThresholds [0, 2, 2] && !validateThresholds [0, 2, 1]")
+    rows = [threshold_setter(cls[name], key, prefix) for name, key, prefix in
+            (("ApplicationObservation", "app_executions", "app_execution"), ("FileObservation", "file_access", "file_access"),
+             ("NICObservation", "nmne", "nmne"))]
+    out.append("/-- per class: (class, thresholds key, what `__init__` does when the key is absent, the entries it hands to the setter when it is\n"
+               "present, the list positions the setter validates, the attributes it assigns under `if self._validate_thresholds(…)`) -/")
+    out.append("def thresholdSetters : List (String × String × String × List String × List Nat × List (String × Nat)) := [\n  "
+               + ",\n  ".join(rows) + "]")
     # the FTP override of `operating_state` in describe_state, and an inventory: no other describe_state assigns an observed key
     ftp = find_method(class_def(parse("simulator/system/services/ftp/ftp_service.py"), "FTPServiceABC"), "describe_state")
     ov = None
